@@ -40,7 +40,7 @@ TEXT = {
         "text": "Exploration of schedules: N x M concurrent SealEnvelope calls (N up to 16) on one and several groups of each type with seeded delays/yields injected around every datastore access, a concurrent opener on the same store, under the Go race detector; "
                 "monitors record call/return events with one logical clock and every chain-key put; oracles: counters distinct and gap-free, history linearizable as fetch-and-increment (direct check and porcupine), every envelope opens to its payload, "
                 "message keys injective, stored counter monotone at every put, no race report in pkg/secretstore. Two further units: fault enumeration over the datastore accesses of a send workload (the k-th access fails once, for every k: the envelopes released to callers must still have distinct counters and open at the receiver) "
-                "and bursts of 16 concurrent first sends on a store instance freshly opened on an existing datastore (restart), 400-4000 rounds per group type under the race detector; the fault workload interleaves the sends with chain-key sharing and PutGroup; a further unit stalls the chain-key write of the p-th send in the datastore, cancels the caller meanwhile, and lets the write through only after two more sends if the call returned early. The fault-free workload also runs on sender backends without batching; a last unit lets 2-6 tasks use a group for the first time at once (rendezvous after the lookup of the missing chain key): one chain, counters 1..n.",
+                "and bursts of 16 concurrent first sends on a store instance freshly opened on an existing datastore (restart), 400-4000 rounds per group type under the race detector; the fault workload interleaves the sends with chain-key sharing and PutGroup; a further unit stalls the chain-key write of the p-th send in the datastore, cancels the caller meanwhile, and lets the write through only after two more sends if the call returned early. The fault-free workload also runs on sender backends without batching; a last unit lets 2-6 tasks use a group for the first time at once (rendezvous after the lookup of the missing chain key): one chain, counters 1..n. A third stall schedule has a second caller queue up behind the stalled send and give up before a third sender starts.",
         "note": "Schedules are sampled (real parallelism + injected delays), not enumerated; a race report in the anchored files is treated as a violation witness.",
         "technique": "runtime monitoring: race detector + recorded client-boundary history checked by porcupine, a monotonicity hook on the datastore, fault injection by enumeration of single datastore faults during sends, and a stalled-write / cancelled-caller schedule forced through the datastore wrapper",
     },
@@ -130,7 +130,7 @@ TEXT = {
     "C19": {
         "text": "Exploration: every method of the protocol service (by reflection over the server interface; streaming ones through an in-memory stream) is called in-process under recover with requests generated field by field from pools of edge values, values harvested from the live service and their corrupted variants, "
                 "in seeded sequences interleaved with activation/deactivation of the account group and other groups; a second unit sweeps every method one field at a time around a baseline request that is valid for the live service (unset, edge bytes, every harvested value and its corrupted copy, every defined and three undefined enum numbers, every known invitation under every group type), "
-                "with the account group active and again after its deactivation; a third unit issues every short sequence of valid contact-request RPCs on a NEW account and follows the background handler that acts on them (its panic ends the process); the exported decode/decrypt helpers get random and malformed inputs. Only a panic (or a dead process) counts.",
+                "with the account group active and again after its deactivation; a third unit issues every short sequence of valid contact-request RPCs on a NEW account and follows the background handler that acts on them (its panic ends the process); a fourth unit, under the race detector, serves six requests of one method at once for every unary method (a race report in the request handlers counts as a violation: it is what ends the process as 'concurrent map writes' in a normal build); the exported decode/decrypt helpers get random and malformed inputs. Only a panic (or a dead process) counts.",
         "note": "In-process calls: a recovered panic is the observation. Calls blocked on external services are cancelled after 3 s.",
         "technique": "runtime monitoring: reflection-driven request fuzzing plus one-field-at-a-time and pairwise sweeps around valid baselines of all RPC handlers in both activation states, with panic capture",
     },
